@@ -8,15 +8,27 @@ CONSTANTS
   Sp0 = 2
   Methods = {"PIT"}
   Twos = {"no", "cat"}
+  ConvVars = {"dflt"}
+  BnVars = {"dflt"}
+  SnoVars = {1}
   AllowPl = TRUE
   AllowExcl = TRUE
   AllowReuse = TRUE
+  AllowLin3 = FALSE
+  AllowDrop = FALSE
   AllowFindings = TRUE
+  MaxHist = 1
+VIEW ViewNoHist
+INVARIANT InvConvertOk
 INVARIANT InvFnPreserved
+INVARIANT InvImportedConfig
 INVARIANT InvUserParams
 INVARIANT InvUserFn
+INVARIANT InvUserOpts
 INVARIANT InvModeKept
+INVARIANT InvFlagsLast
 INVARIANT InvExportIso
 INVARIANT InvExportLiteral
 INVARIANT InvBnAccount
+INVARIANT InvNasConfig
 INVARIANT InvWellFormed
